@@ -66,6 +66,9 @@ def gen_e2e(r, tier):
     for p in c01.two_repartitions():
         for cfg in ("local", "bm M2 P4"):
             yield "%s ;; run %s" % (cfg, p)
+    # keyed aggregations emit every distinct key once also when an input spans several read buffers
+    for p in c01.wide_keyed():
+        yield "%s ;; run %s" % (r.choice(["local", "bm M2 P4"]), p)
     # many producer tasks of one Repartition running at the same time in one process (the partition function's argument
     # vector must not be shared between them)
     for cfg, n in (("local P8", 24000), ("bm M4 P8", 16000), ("local P4 CH2", 6000)):
